@@ -282,7 +282,7 @@ fn run(case: &Case, out: &mut Out) {
                             }
                         }
                         if err {
-                            obs.extend([ts("goaway"), ts("PROTOCOL_ERROR")]);
+                            obs.extend([ts("goaway"), ts("FLOW_CONTROL_ERROR")]);
                             c.dead = true;
                         } else {
                             obs.push(ts("ok"));
